@@ -569,8 +569,17 @@ class AxisInterp:
                 return self.block(st.body, env)
             if t is False:
                 return self.block(st.orelse, env)
-            a = self.block(st.body, self.refine_order(st.test, dict(env)))
-            b = self.block(st.orelse, dict(env))
+            if isinstance(st.test, ast.UnaryOp) and isinstance(
+                    st.test.op, ast.Not):
+                # `if not (X.ids(A) == L).all(): <re-order>`: the refinement
+                # holds where the body is skipped
+                a = self.block(st.body, dict(env))
+                b = self.block(st.orelse, self.refine_order(
+                    st.test.operand, dict(env)))
+            else:
+                a = self.block(st.body,
+                               self.refine_order(st.test, dict(env)))
+                b = self.block(st.orelse, dict(env))
             return self.join_env(a, b)
         if isinstance(st, (ast.For, ast.AsyncFor)):
             return self.loop(st, env)
